@@ -611,7 +611,8 @@ def dispatcher_state_reset(ctx, props):
                 ctx.ob(props, 'RF12b', resetter, site, 'stored on every path to the exit')
             else:
                 ctx.ob(props, 'RF12b', resetter, site, None)
-                ctx.find(props, 'RF12b', resetter, 'no-reset:%s.%s' % fld, m.loc(resetter, bad.line),
+                # COSdoReset is what reset communication runs for every server: C20 ("SDO servers idle")
+                ctx.find(props + (['C20'] if resetter == 'COSdoReset' else []), 'RF12b', resetter, 'no-reset:%s.%s' % fld, m.loc(resetter, bad.line),
                          '%s can return (line %d) without resetting %s.%s, which the dispatcher consults before the '
                          'command byte: a later request is decoded in a stale state' % (resetter, bad.line, fld[0], fld[1]))
 
